@@ -52,6 +52,21 @@ def gen_cases(rng, tier, count=None):
             # one very deep path (labels grow like K^depth: beyond 2^63 from depth 28 (K=5) / 40 (K=3) / 64 (K=2))
             c.update(chain=str(rng.choice(["last", "random"])), p_deepen=0.0, steps=int(rng.integers(45, 90)))
         out.append(c)
+    # the light algorithms once more, with the recommendation asked after every round (a query that touches the
+    # per-depth lists does so in particular rounds only) and value-poor reward histories
+    light = ["SOO", "DOO", "DOO_delta", "SequOOL", "StroquOOL", "StoSOO", "Zooming"]
+    for i in range(140 if tier == "quick" else 2000):
+        a = light[i % len(light)]
+        c = gen.algo_case(rng, a, tier, n_choices=[100, 150, 200, 300, 500])
+        if rng.random() < 0.6:
+            c["reward"]["family"] = str(rng.choice(["zero", "tied", "const", "twoval", "negzero", "nonpos3", "bern"]))
+        T = c["T"]
+        if rng.random() < 0.6:
+            c["queries"] = list(range(T))
+            c["tolerate_query_errors"] = True
+            out.append(gen.add_midqueries(rng, c, 0.25) if a not in ("SequOOL", "StroquOOL") else c)
+        else:
+            out.append(gen.add_midqueries(rng, gen.add_queries(rng, c, 0.5), 0.25))
     return out
 
 
